@@ -1065,7 +1065,14 @@ fn gen_miss(rng: &mut Rng, model: &Value, stats: &mut Stats) -> Loc {
         let mut loc = base.clone();
         let kind: &'static str;
         match v {
-            Value::Array(a) => match rng.below(5) {
+            Value::Array(a) => match rng.below(6) {
+                5 => {
+                    // a negative index step that the index *selector* of a query would resolve from the
+                    // end: no location has one (S122)
+                    let k = if a.is_empty() { 1 } else { 1 + rng.below(a.len()) };
+                    loc.push(Step::Big(format!("-{}", k)));
+                    kind = "negative_index_within_length";
+                }
                 4 => {
                     // an index no array can have: beyond 2^53, beyond 2^63, and beyond 2^64 where the
                     // low 64 (or 32) bits spell an index that exists
